@@ -133,7 +133,7 @@ def CBox.dagger : CBox → CBox
   | .rotation n => .rotation n                 -- gates.py:357-358
   | .classicalGate d c dg => .classicalGate c d dg.flipKeepNone   -- gates.py:96-99
   | .scalar => .scalar                         -- gates.py:518-520
-  | .box d c dg => .box c d dg.notPy           -- cat.py:581-584
+  | .box d c dg => .box c d dg.flipKeepNone    -- circuit.py Box.dagger: `None` stays `None`, else cat.py:581-584
 
 /-- The box as the generic model sees it: an opaque generator with this dom and cod. -/
 def CBox.toBox (b : CBox) : Box := { name := "c", dom := b.dom, cod := b.cod }
